@@ -585,7 +585,15 @@ Diag(rec, o) == CASE rec.fmt = "json" -> JsonDiag(rec, o)
                   [] rec.fmt = "logfmt" -> LogfmtDiag(rec, o)
                   [] OTHER -> ColorDiag(rec, o)
 
-\* the input domain of each property (records outside are skipped, never judged)
+\* the input domain of each property (records outside are skipped, never judged).
+\* TOP-LEVEL ATTRIBUTES NAMED LIKE A BUILT-IN MEMBER (time, level, msg, logger, caller - ReservedIds): the quantifiers of
+\* C04 ("all attribute keys other than the four reserved field names") and C05 ("... other than the reserved names")
+\* exclude them, so a JSON / logfmt record that carries one is skipped here whatever it looks like (which of two members
+\* of one name a reader gets is not a claim of C04 / C05).  The one reserved name another property speaks about is
+\* `caller`: C14 demands that the record REPORTS the call site - Caller.tla (dimension ua) states what a last-wins
+\* reader must find under that name when the record, the logger or a handler carries an attribute keyed `caller`.
+\* C06 has no such exclusion: in the console line a top-level reserved key is an ordinary pair (TopTimeWaived is the
+\* one allowance).  As MEMBERS OF A GROUP the five names are ordinary keys in every format (KeyNamesDoNotMatter).
 RECURSIVE KeysLegal(_, _)
 KeysLegal(fmt, s) == \A i \in DOMAIN s :
     /\ (fmt # "json" => s[i].k # 0 /\ s[i].kc \in {"plain", "nonascii", "astral", "markup", "bslash"})
